@@ -56,7 +56,7 @@ def build(schema, variant_null=False, fault=None):
             return (seed % 2) == 0
         if n == "ID":
             return f"{tname}{variant + 1}"
-        return f"custom:{fname}"
+        return "drop" if variant == 1 else f"custom:{fname}"
 
     def value(t, tname, fname, variant, depth=0):
         if isinstance(t, NonNull):
